@@ -101,6 +101,15 @@ pub struct ReplicaOwnedMutexGuard<T> {
     inner: OwnedMutexGuard<T>,
 }
 
+#[cfg(feature = "verif_hooks")]
+impl<T> Drop for ReplicaOwnedMutexGuard<T> {
+    #[inline]
+    fn drop(&mut self) {
+        // All guards of per-key mutexes are released while the global lock is held.
+        crate::verif::unprotected_point();
+    }
+}
+
 impl<T> Deref for ReplicaOwnedMutexGuard<T> {
     type Target = OwnedMutexGuard<T>;
 
